@@ -1,1 +1,8 @@
-/- C10 — property theorems (stub: the slice is not built yet). -/
+import GB.C10.Spec
+/-
+  C10 — property theorems.
+-/
+open GB GB.C10
+
+/-- The gateway table the code calls equals the canonical gRPC→HTTP mapping for all 17 codes. -/
+theorem C10_table : ∀ c, c < 17 → httpStatusFromCode c = canonicalHttp c := by decide
